@@ -177,7 +177,8 @@ def issue_param(seq, op: dict, pv: dict):
         return seq.declare_channel(op["name"], op["channel_id"], **kw)
     if k == "config_detuning_map":
         reg = seq.get_register(include_mappable=True)
-        return seq.config_detuning_map(reg.define_detuning_map(op["weights"]), op["dmm_id"])
+        dm = reg.define_detuning_map(op["weights"], op["slug"]) if op.get("slug") else reg.define_detuning_map(op["weights"])
+        return seq.config_detuning_map(dm, op["dmm_id"])
     if k == "target":
         return seq.target(op["qubits"], op["ch"])
     if k == "target_index":
